@@ -59,3 +59,45 @@ package localfs
 //@   ensures [sorted] ret2 == nil ==> (forall i int :: 0 <= i && i + 1 < len(ret0) ==> !strlt(ret0[i+1], ret0[i]))
 // the matching prefix must be the one the caller gave (a trailing "/" is significant): known finding K8
 //@   call Walk#1 assert [given-prefix] noRoot ==> prefix#1 == cat("/", prefix)
+
+// ---- the other object-store operations (C16: "reads return the last written bytes, deletes remove keys")
+// each operates on exactly the key it was given; absence is reported the object-store way: Has says false
+// without error, Get returns the not-exists sentinel, Delete of an absent key is not an error
+//@ func (*localFS).Has
+//@   requires l != nil
+//@   call Stat#1 assert [of-key] $1 == key
+//@   call Stat#1 bind se = $ret1
+//@   call IsNotExist#1 assert [of-stat-error] se_set && $0 == se
+//@   call IsNotExist#1 bind absent = $ret0
+//@   call IsDir#1 bind dir = $ret0
+//@   ensures [absent-is-false-not-an-error] se_set && se != nil && absent_set && absent ==> ret0 == false && ret1 == nil
+//@   ensures [other-failures-reported] se_set && se != nil && absent_set && !absent ==> ret1 != nil
+//@   ensures [files-only] se_set && se == nil ==> ret1 == nil && dir_set && ret0 == !dir
+
+//@ func toSentinelErrors
+//@   call IsNotExist#1 assert [of-error] $0 == err
+//@   call IsNotExist#1 bind absent = $ret0
+//@   call Wrap#1 assert [not-exists-sentinel] $0 == storagestatus.ErrNotExists && $1 == err
+//@   ensures [nil-stays-nil] err == nil && absent_set && !absent ==> result == nil
+//@   ensures [others-unchanged] absent_set && !absent ==> result == err
+
+//@ func (*localFS).Get
+//@   requires l != nil
+//@   call Open#1 assert [of-key] $1 == key
+//@   call Open#1 bind oe = $ret1
+//@   call toSentinelErrors#1 assert [of-open-error] oe_set && $err == oe
+
+//@ func (*localFS).Delete
+//@   requires l != nil
+//@   call Remove#1 assert [of-key] $1 == key
+//@   call Remove#1 bind re = $ret0
+//@   call IsNotExist#1 assert [of-remove-error] re_set && $0 == re
+//@   call IsNotExist#1 bind absent = $ret0
+//@   ensures [removed-or-absent-is-success] re_set && (re == nil || (absent_set && absent)) ==> result == nil
+//@   ensures [other-failures-reported] re_set && re != nil && absent_set && !absent ==> result != nil
+
+//@ func (*localFS).GetAttr
+//@   requires l != nil
+//@   call Stat#1 assert [of-key] $1 == objectName
+//@   call Stat#1 bind se = $ret1
+//@   ensures [propagate] se_set && se != nil ==> ret1 != nil
